@@ -8,6 +8,8 @@ Structural clauses decided:
  R4 section routing of Database::from_str: (module, direction) -> collection, label/sig attachment, error exits; classes / mtu /
     ua_os are accumulated (initialised once, only appended to); neither the loader nor FingerprintCollection::new drops or
     reorders entries
+ R1 (also) every value hole of the vocabularies is printed with plain `{}` (decimal), as the digit parsers read it; the label grammar is
+    type:class:name[:rest-of-line flavor]
 """
 import re
 
